@@ -749,4 +749,45 @@ theorem programs_match_source :
     (Coba.Generated.C11.applySrc ≠ [] ∧ ∀ e ∈ Coba.Generated.C11.applySrc, e = applyExpr) ∧ Coba.Generated.C11.meanSrc = meanExpr :=
   programs_match_source'
 
+/-! ### phase 6 — histories of partial, abandoned and interleaved reads of generators from the same filter object(s) -/
+
+/-- ANY history of `open` / `next` / `close` over any number of generators created from the same shared filter objects
+(one `Scale`/`Impute` object, or the pipeline of an `Environments.scale|impute` call), started in any state that a cursor
+list describes: every output (yielded interaction, StopIteration, exception, close) is the output of the CURSOR machine,
+in which generator `g` is nothing but a position in the fixed result `pipeRows f cfgs src_g` of ITS OWN sequence — no
+fitted statistic is shared between frames, abandoned frames leave nothing behind, `_times` never matters -/
+theorem generator_histories {κ : Type} (f : κ → Ctxs → Except Err Ctxs) (srcs : List Ctxs) (s : GenSt κ) (cs : List Cur)
+    (ops : List (List Nat × GenOp)) (hg : s.gens = cs.map (Cur.conc (pipeRows f (s.objs.map (·.cfg))))) :
+    (GenSt.run f srcs s ops).2 = (curRun (pipeRows f (s.objs.map (·.cfg))) srcs cs (ops.map (·.2))).2 :=
+  generator_histories' f srcs s cs ops hg
+
+/-- the hypothesis holds at the start (no generator created yet), for any objects with any `_times` -/
+theorem generator_histories_init {κ : Type} (f : κ → Ctxs → Except Err Ctxs) (srcs : List Ctxs) (objs : List (Obj κ))
+    (ops : List (List Nat × GenOp)) :
+    (GenSt.run f srcs ⟨objs, []⟩ ops).2 = (curRun (pipeRows f (objs.map (·.cfg))) srcs [] (ops.map (·.2))).2 :=
+  generator_histories_init' f srcs objs ops
+
+/-- and in the middle of a history: one frame suspended after its first interaction, one abandoned -/
+example : ([Gen.running [Row.scalar (.num 5)], Gen.done] : List Gen) =
+    ([⟨.scalar [.num 1, .num 5], some 1⟩, ⟨.scalar [.nil], none⟩] : List Cur).map
+      (Cur.conc (pipeRows imputeF ([] : List ImpCfg))) := by
+  simp [Cur.conc, pipeRows, pipe, Except.map, Ctxs.rowList]
+
+/-- in the cursor machine an operation on one generator touches no other cursor (so what `next g'` yields later is decided
+by the operations on `g'` alone) -/
+theorem cursor_frame (F : Ctxs → Except Err (List Row)) (srcs : List Ctxs) (cs : List Cur) (op : GenOp) (g' : Nat)
+    (hlt : g' < cs.length) (hne : op ≠ .next g' ∧ op ≠ .close g') :
+    (curStep F srcs cs op).1[g']? = cs[g']? :=
+  cursor_frame' F srcs cs op g' hlt hne
+
+example : (0 : Nat) < ([⟨.scalar [], some 0⟩] : List Cur).length ∧ (GenOp.next 1 ≠ .next 0 ∧ GenOp.next 1 ≠ .close 0) := by
+  refine ⟨by simp, by simp, by simp⟩
+
+/-- the fixed result lists the cursors point into: `Scale` → rows of `scaleCtxs`, `Environments.impute(stats)` → rows of
+`envImpute` (so all cell theorems above apply to every interaction yielded in any history) -/
+theorem generator_pipelines (sd : List Rat → Rat) (cfg : Cfg) (stats : List Stat) (ind : Bool) (u : Option Nat) (c : Ctxs) :
+    pipeRows (scaleCtxs sd) [cfg] c = (scaleCtxs sd cfg c).map Ctxs.rowList ∧
+    pipeRows imputeF (stats.map (fun st => (st, ind, u))) c = .ok (envImpute stats ind u c).rowList :=
+  generator_pipelines' sd cfg stats ind u c
+
 end Coba.C11
